@@ -32,4 +32,9 @@ theorem next_safe_any_state (m : RawMap K V) (f : Nat) (st : ItState K V) (r : R
     NoUB (itemNext Cfg.repaired m f st) ∧ NoUB (rangeNext Cfg.repaired m f r) ∧ NoUB (fastNext Cfg.repaired m f fs) :=
   ⟨itemNext_noub _ rfl m f st, rangeNext_noub _ rfl m f r, fastNext_noub _ rfl m f fs⟩
 
+/-- non-vacuity: at a concrete three-level state with freed slots (`C02.demo_state`) the unguarded P1 read stays in bounds -/
+example : ∃ s : RState Int Nat, s.height = 2 ∧ s.al.leaf.free.length = 5 ∧ (view s).items { guardBoth := false } = .ok (abs s) := by
+  obtain ⟨s, hs, hsm, hh, _, hf⟩ := C02.demo_state
+  exact ⟨s, hh, hf, p1_safe_on_valid_maps_even_unguarded s hs hsm⟩
+
 end BPT.Props.C05
